@@ -143,6 +143,30 @@ def run(ctx):
                    c.node.where,
                    "slot claim must be CAS(EMPTY -> BUSY) with acquire on success; got order %s, desired %s" %
                    (A.ORDER_NAME.get(c.order), pstr(ig.rarg(c.node, 1))))
+        # R1f the claim is made on the slot's own control byte: the byte indexed exactly like the element that is constructed
+        slot_idx = set()
+        for c_ in constructs:
+            for sd in walk(ig.rarg(c_, 0) if c_.ev["e"] == "call" else c_.ev.get("place")):
+                n_ = ig.ev_of(sd) if isinstance(sd, dict) and sd.get("k") == "e" else None
+                if n_ is not None and n_.ev.get("name") == "at" and n_.ev.get("args"):
+                    slot_idx.add(pstr(strip_cast(ig.resolve(n_.ev["args"][0], n_.frame))))
+        for c in cas_nodes:
+            o = strip_cast(ig.resolve(c.obj, c.node.frame)) if isinstance(c.obj, dict) else None
+            for _ in range(4):
+                if isinstance(o, dict) and o.get("k") == "l" and "fr" in o:
+                    defs = ig.local_defs(ig.frames[o["fr"]], o["id"])
+                    if len(defs) == 1 and defs[0][1] is not None:
+                        o = strip_cast(defs[0][1])
+                        continue
+                break
+            own = isinstance(o, dict) and o.get("k") == "idx" and isinstance(strip_cast(o.get("b")), dict) and \
+                strip_cast(o["b"]).get("k") == "f" and strip_cast(o["b"]).get("n") == "_controls" and \
+                strip_cast(strip_cast(o["b"]).get("b")).get("k") == "this" and \
+                pstr(strip_cast(ig.resolve(o.get("i"), c.node.frame))) in slot_idx
+            ctx.ob("C03.R1f", inst, bool(slot_idx) and own, c.node.where,
+                   "the slot is claimed on %s, not on _controls[<index of the element constructed>]: the first Group::SIZE-1 control "
+                   "bytes are mirrored behind the table, and a claim on the mirror does not exclude a claim on the byte itself "
+                   "(two winners of one slot)" % pstr(o), site="%s@claim-byte" % inst)
         stores = [a for a in ctrl_ops(ig, live) if a.op == "store"]
         pub = [s for s in stores if s.node.id not in r_nosucc]
         vals = set(pstr(ig.rarg(s.node, 0)) for s in pub)
